@@ -108,6 +108,17 @@ CLAIMS = {
              "lastIndex they leave behind.",
         technique="solver-driven exploration of the real RegExp object against a transcribed RegExpBuiltinExec state machine (CrossHair/z3)",
         design_ref="DESIGN.md section 4 (C20)"),
+    "C15": dict(
+        text="The hash seed reaches the engine only through the iteration order of the sets the compiler builds while analysing "
+             "scopes. In the checking process the name `set` of microjs.compiler is bound to a subclass whose iteration order is a "
+             "permutation chosen by the solver (Lehmer digits, one permutation per distinct content): for 12 closure-heavy programs "
+             "(parameters, many locals, captured and pass-through variables, named function expressions, arguments, arrows, "
+             "try/catch, constructors) every order of the first 6 (thorough: 8) permuted sets must give the same value as the sorted "
+             "order and as the value the program is built to produce - all orders within the bound, not a sample of seeds. Plus: 5 "
+             "programs evaluated in one process in every one of the 120 orders (fresh and shared contexts), and evaluation under "
+             "a clock whose readings are arbitrary non-decreasing symbolic doubles.",
+        technique="solver-chosen permutations of the compiler's set iteration orders (CrossHair/z3 over Lehmer digits), symbolic clock",
+        design_ref="DESIGN.md section 4 (C15)"),
     "C16": dict(
         text="Every implemented String.prototype method (and length / index access) is executed on the real "
              "implementation (VM._make_string_method) with the receiver a solver variable ranging over every BMP "
